@@ -61,6 +61,7 @@ package core
 //@   props C04 C10 C15
 //@   modifies p.active.count, p.active.front, p.active.back, poolConn.next, poolConn.prev, poolConn.c, eventloop.connections, allmaps(EngineGlobal.eng.el.connections), conn.opened
 //@   requires pwf(p)
+//@   assert at call activeList.pushFront :: forall i int :: 0 <= i && i < p.active.count ==> qnth_local(old(heap(poolConn.next)), heap(poolConn.next), p.active.front, i) && an(p.active, i) == old(an(p.active, i))
 //@   ensures[wf] pwf(p)
 //@   ensures[tracked@C10,C15] result != nil ==> tracked(p, result)
 //@   ensures[live@C04,C10] result != nil ==> okc(result) && live(result)
